@@ -70,7 +70,7 @@ O_Untouched(b) ==
 
 O_Exact(b) ==
     LET e == EndIdx(b) IN
-    Evs[e].out = "ok" => Evs[e].dest = "new" /\ Evs[e].wr = "new" /\ Evs[e].wopens >= 1
+    Evs[e].out = "ok" => Evs[e].dest = "new" /\ Evs[e].wr # "other" /\ Evs[e].wopens >= 1
 
 O_LoadsBack(b) ==
     LET e == EndIdx(b) IN
@@ -100,7 +100,8 @@ BadObs ==
 Report ==
     IF ~ev'.vis THEN TRUE
     ELSE LET bo == BadObs
-             bi == IF ev'.op = "Begin" THEN ObsPreds(l) ELSE {}
+             \* at the first event: the property on the observations of EVERY save of the trace
+             bi == IF l = 1 THEN UNION {ObsPreds(b) : b \in BeginIdx} ELSE {}
              rec == IF bo = {}
                     THEN [t |-> tid, l |-> l, bo |-> bo, bi |-> bi]
                     ELSE [t |-> tid, l |-> l, bo |-> bo, bi |-> bi, m |-> ev']
